@@ -416,6 +416,9 @@ def compare_model(ctx, hist, recs, rep):
         where = dict(inp, step=i)
         ctx.count('hist_model_steps')
         if r['res'] != m['res']:
+            if i > 0 and isclose_boundary(hist['ops'][i - 1], recs[i - 1], r, steps[i - 1], m):
+                ctx.count('hist_isclose_boundary')      # float noise decided math.isclose(rel_tol=1e-15): the histories part ways
+                return True
             ctx.disagree('corr:hist.run:outcome', where, r['res'], m['res'])
             return False
         mh = model_held(m['held'])
@@ -441,6 +444,20 @@ def compare_model(ctx, hist, recs, rep):
                     ctx.disagree('corr:hist.run:' + w, dict(where, T=T), r['outs'][T][w], show(p[w]))
                     return False
     return True
+
+
+def isclose_boundary(op, r0, r1, m0, m1):
+    """an update accepted on one side and refused with ReadOnlyDataError on the other because the (translated) reference value
+    the operand brings is within float noise (1e-9) of the one already held: update() compares them with rel_tol=1e-15, which
+    the exact model and the floating-point implementation may decide differently"""
+    if op['k'] != 'update' or op['ow'] or set((r1['res'], m1['res'])) != set(('done', 'raised:readOnly')):
+        return False
+    if r1['res'] == 'done':
+        before, after = r0['held'], r1['held']
+    else:
+        before, after = model_held(m0['held']), model_held(m1['held'])
+    ks = [k for k in ('H', 'S') if op['d'][k] is not None and before[k] is not None]
+    return bool(ks) and all(after[k] is not None and common.close(after[k], before[k], 1.0) for k in ks)
 
 
 def show(m):
